@@ -41,6 +41,18 @@ CHECKS = {
              "Initial bounds given to the search are sound.",
         technique="deterministic simulation: seeded per-call tightening schedules of simulated slow items, "
                   "brute-force oracle"),
+    "C20": dict(
+        category="fault_enumeration", design_ref="DESIGN.md section 4, C20",
+        text="Every generated valid document of each text format is stored on the simulated disk and corrupted by a "
+             "torn write at every byte offset, plus lost tail blocks, zero fill, bit flips, dropped/duplicated "
+             "delimiters, unbalanced brackets/tags and compositions; files that every independent parser rejects go "
+             "through the real main() in-process (simulated stdout/stderr/clock) as first or second file under every "
+             "type spelling and status setting; a seeded sample is re-run as a real subprocess and must agree.",
+        note="Trusted: the independent parsers (stdlib json, json5, PyYAML pure+C, pyexpat, plistlib + structural "
+             "validator) as the definition of 'syntactically invalid'; HTML validity = well-formed XHTML; I/O errors "
+             "are outside the property.",
+        technique="deterministic simulation with fault injection on stored input (torn writes enumerated at every "
+                  "offset), in-process CLI with simulated streams and clock"),
 }
 
 
